@@ -74,9 +74,15 @@ class SubclassCoercerProvider(NormTypeCoercerProvider):
             or is_parametrized(norm_dst.source)
         ):
             raise CannotProvide
+        if self._is_empty_tuple(norm_src) or self._is_empty_tuple(norm_dst):
+            raise CannotProvide
         if is_subclass_soft(norm_src.origin, norm_dst.origin):
             return as_is_stub_with_ctx
         raise CannotProvide
+
+    def _is_empty_tuple(self, norm: BaseNormType) -> bool:
+        # Tuple[()] is a parametrized constant-length tuple although it has no generic args
+        return norm.origin is tuple and not norm.args
 
 
 class MatchingCoercerProvider(CoercerProvider):
